@@ -23,7 +23,7 @@ T == cur.defs["T"]
 ProbeOf(e) == cur.probes[e.probe]
 
 CaseEv == /\ IsEvent("case") /\ cur' = Rec[l] /\ items' = << >> /\ UNCHANGED <<nbad, nself>>
-Skip == /\ (IsEvent("ingest") \/ IsEvent("compile") \/ IsEvent("bounds") \/ IsEvent("probe_na")
+Skip == /\ (IsEvent("ingest") \/ IsEvent("bounds") \/ IsEvent("probe_na")
             \/ IsEvent("endcase") \/ IsEvent("intro") \/ IsEvent("bounds_decl") \/ IsEvent("probe_panic"))
         /\ UNCHANGED <<nbad, nself, cur, items>>
 
@@ -36,20 +36,45 @@ Bypass(its, i) ==
     \/ its[i].fields[1].vis = "pub"
     \/ \E j \in DOMAIN its : its[j].kind = "impl" /\ its[j].mod = "" /\ its[j].for_ = its[i].name
                              /\ its[j].trait_ = "::std::convert::From<" \o its[i].fields[1].ty \o ">"
-Render == /\ IsEvent("render")
-          /\ LET e == Rec[l]
-                 bad == IF e.res = "ok" /\ cur.enforced THEN { i \in ConstrainedNewtypes(e.items) : Bypass(e.items, i) } ELSE {}
-             IN /\ \A i \in bad : PrintT(<<"BAD", ToJson([l |-> l, case |-> e.case, prop |-> "C05",
-                                          diag |-> "C05/PublicConstructorOnConstrainedNewtype", fam |-> cur.fam, id |-> cur.id,
-                                          ty |-> e.items[i].name, known |-> {}])>>)
-                /\ nbad' = nbad + Cardinality(bad)
-                /\ items' = e.items
-          /\ UNCHANGED <<nself, cur>>
+(* the inventory is judged once the module is known to compile: an output that rustc rejects
+   (e.g. two items of one name) is C01's business and its items cannot be told apart by name *)
+Render == /\ IsEvent("render") /\ items' = Rec[l].items /\ UNCHANGED <<nbad, nself, cur>>
+Compile == /\ IsEvent("compile")
+           /\ LET e == Rec[l]
+                  bad == IF e.res = "ok" /\ cur.enforced THEN { i \in ConstrainedNewtypes(items) : Bypass(items, i) } ELSE {}
+              IN /\ \A i \in bad : PrintT(<<"BAD", ToJson([l |-> l, case |-> e.case, prop |-> "C05",
+                                           diag |-> "C05/PublicConstructorOnConstrainedNewtype", fam |-> cur.fam, id |-> cur.id,
+                                           ty |-> items[i].name, known |-> {}])>>)
+                 /\ nbad' = nbad + Cardinality(bad)
+           /\ UNCHANGED <<nself, cur, items>>
 
 (* ---- known findings ------------------------------------------------------ *)
 (* generation-time filtering of string enum values by byte length
    (util.rs:847-859) against the schema's count in scalar values: a value
    whose byte length satisfies minLength while its scalar count does not *)
+(* the adjacent shape, and the value with the undeclared members removed wherever a value sits
+   at a schema of that shape (followed through references and declared properties) *)
+DerefS(S) == IF SHas(S, "ref") /\ S.ref \in DOMAIN cur.defs THEN cur.defs[S.ref] ELSE S
+AdjShape(S) == /\ SHas(S, "oneOf")
+               /\ \A i \in DOMAIN S.oneOf : ClosedObj(S.oneOf[i]) /\ SHas(S.oneOf[i], "properties")
+                                              /\ Cardinality(DOMAIN S.oneOf[i].properties) <= 2
+KeepOnly(w, B) ==
+    LET keep == SelectSeq([j \in DOMAIN w.k |-> j], LAMBDA j : w.k[j] \in DOMAIN B.properties)
+    IN JObj([j \in DOMAIN keep |-> w.k[keep[j]]], [j \in DOMAIN keep |-> w.v[keep[j]]])
+RECURSIVE StripAdj(_, _, _)
+StripAdj(S0, w, n) ==
+    LET S == DerefS(S0) IN
+    IF n = 0 \/ w.t # "obj" THEN w
+    ELSE IF AdjShape(S) THEN
+         (IF \E i \in DOMAIN S.oneOf : Len(KeepOnly(w, S.oneOf[i]).k) < Len(w.k) /\ Valid(S.oneOf[i], KeepOnly(w, S.oneOf[i]), cur.defs)
+          THEN KeepOnly(w, S.oneOf[CHOOSE i \in DOMAIN S.oneOf :
+                              Len(KeepOnly(w, S.oneOf[i]).k) < Len(w.k) /\ Valid(S.oneOf[i], KeepOnly(w, S.oneOf[i]), cur.defs)])
+          ELSE w)
+    ELSE IF SHas(S, "properties") THEN
+         JObj(w.k, [j \in DOMAIN w.k |-> IF w.k[j] \in DOMAIN S.properties
+                                          THEN StripAdj(S.properties[w.k[j]], w.v[j], n - 1) ELSE w.v[j]])
+    ELSE w
+
 MultiByte(cs) == \E i \in DOMAIN cs : ByteLen(cs[i]) > 1
 KnownDeser(e, d) ==
     LET v == ProbeOf(e).val IN
@@ -60,17 +85,12 @@ KnownDeser(e, d) ==
                 /\ StrBytes(v.c) >= T.minLength /\ Len(v.c) < T.minLength
                 /\ \E i \in DOMAIN T.enum : JEq(T.enum[i], v)
              [] k = "C05-adjacent-variant-closedness-dropped" ->
-                (* every branch is a closed object over a tag and at most a content member;
-                   without its undeclared members the instance is valid *)
-                /\ SHas(T, "oneOf") /\ v.t = "obj"
-                /\ \A i \in DOMAIN T.oneOf : ClosedObj(T.oneOf[i]) /\ SHas(T.oneOf[i], "properties")
-                       /\ Cardinality(DOMAIN T.oneOf[i].properties) <= 2
-                /\ \E i \in DOMAIN T.oneOf :
-                      LET B == T.oneOf[i]
-                          keep == SelectSeq([j \in DOMAIN v.k |-> j], LAMBDA j : v.k[j] \in DOMAIN B.properties)
-                          w == JObj([j \in DOMAIN keep |-> v.k[keep[j]]], [j \in DOMAIN keep |-> v.v[keep[j]]])
-                      IN Len(keep) < Len(v.k) /\ Valid(B, w, cur.defs)
-                /\ \E i \in DOMAIN items : items[i].kind = "enum" /\ items[i].name = "T"
+                (* somewhere along the declared properties of the instance (the root included) sits a
+                   oneOf all of whose branches are closed objects over a tag and at most a content
+                   member; the instance is valid once the undeclared members of the values at those
+                   positions are removed, and the output has an adjacently tagged enum *)
+                /\ ~JEq(StripAdj(T, v, 4), v) /\ Valid(T, StripAdj(T, v, 4), cur.defs)
+                /\ \E i \in DOMAIN items : items[i].kind = "enum"
                       /\ \E j \in DOMAIN items[i].serde : items[i].serde[j] = "content=\"c\"" }
 KnownStr(e, d) ==
     { k \in {"C11-datetime-display-differs"} :
@@ -104,7 +124,7 @@ Str == /\ IsEvent("str")
              /\ nbad' = nbad + (IF d5 # "ok" THEN 1 ELSE 0) + (IF d11 # "ok" THEN 1 ELSE 0)
        /\ UNCHANGED <<nself, cur, items>>
 
-Next == CaseEv \/ Skip \/ Render \/ Deser \/ Str
+Next == CaseEv \/ Skip \/ Render \/ Compile \/ Deser \/ Str
 Spec == Init /\ [][Next]_vars
 Finished ==
     /\ PrintT(<<"TRACE-STATS", ToJson([lines |-> Len(Rec), diameter |-> TLCGet("stats").diameter,
